@@ -45,6 +45,8 @@ def _worker(args):
             if cases > 0 and not getattr(prop, "NO_MACHINE", False):
                 run_machine(prop, ctx, seed * 1000 + shard, cases, steps, shrink=shrink)
             prop.extra_checks(ctx, tier, seed, shard, nshards)
+            if tier == "thorough" and getattr(prop, "FUZZ_RUNS", 0) and cases > 0:
+                _fuzz_phase(prop, ctx, prop_id, seed, shard)
         except Violation as v:
             v = ctx.last_violation or v
             rep = {"property": prop_id, "clause": v.clause, "detail": str(v.detail)[:4000], "seed": seed,
@@ -72,6 +74,48 @@ def _worker(args):
         res["error"] = traceback.format_exc()
     res["wall_s"] = time.time() - t0
     return res
+
+
+def _fuzz_phase(prop, ctx, prop_id, seed, shard):
+    """coverage-guided fuzzing of histories (tv/fuzz.py) in a child process; its counts are merged into this shard's"""
+    import shutil
+    import subprocess
+    import tempfile
+    from .core import Violation
+    from .ops import scratch_root
+    out = tempfile.mkdtemp(prefix="tv-fuzz-", dir=scratch_root())
+    try:
+        try:
+            import atheris  # noqa: F401
+        except Exception:
+            ctx.event("fuzz:unavailable")
+            return
+        cmd = [sys.executable, "-m", "tv.fuzz", prop_id, str(prop.FUZZ_RUNS), str(seed * 1000 + shard), out]
+        r = subprocess.run(cmd, cwd=HERE, capture_output=True, text=True, timeout=3600)
+        res = {}
+        if os.path.isfile(os.path.join(out, "result.json")):
+            with open(os.path.join(out, "result.json")) as f:
+                res = json.load(f)
+        ctx.evaluations += res.get("evaluations", 0)
+        ctx.nontrivial.update(res.get("nontrivial", []))
+        ctx.extra["fuzz_execs"] += res.get("execs", 0)
+        ctx.extra["fuzz_histories"] += res.get("evaluations", 0)
+        for k, v in res.get("events", {}).items():
+            ctx.events[k] += v
+        for k, v in res.get("known_hits", {}).items():
+            ctx.known_hits[k] += v
+        vp = os.path.join(out, "violation.json")
+        if os.path.isfile(vp):
+            with open(vp) as f:
+                rep = json.load(f)
+            v = Violation(prop_id, rep["clause"], rep["detail"], ops=rep["ops"], config=rep["config"])
+            ctx.last_violation = v
+            raise v
+        if r.returncode not in (0,):
+            from .core import HarnessError
+            raise HarnessError("fuzz phase exited with %d\n%s" % (r.returncode, r.stderr[-1500:]))
+    finally:
+        shutil.rmtree(out, ignore_errors=True)
 
 
 def write_replay(rep):
